@@ -257,6 +257,18 @@ def rule_map_key(ctx: Ctx) -> None:
             "one key object - the hashable itself, not a hash of it - is used for the test, the get and the put",
             f"the key is `{hashed[0][:70]}`: a hash of the arguments, so colliding hashes return another call's value" if hashed else f"test/get/put use different keys: {sorted(texts)}",
             "key construction not recognised", key="key")
+    # ... and says WHICH function was called, by the one name a pipeline guarantees to be unique: the output name.  `__name__` /
+    # `__qualname__` of the wrapped callable coincide for closures of one factory and for lambdas; the wrapped callable itself may
+    # be shared by several PipeFuncs with different renames/bound values
+    fparams = [p_.arg for p_ in gk.params if p_.annotation is not None and "PipeFunc" in norm(p_.annotation)]
+    if fparams and texts:
+        ktxt = next(iter(texts))
+        attrs = sorted({x.attr for x in ast.walk(ast.parse(ktxt, mode="eval")) if isinstance(x, ast.Attribute) and isinstance(x.value, ast.Name) and x.value.id in fparams}) if len(texts) == 1 else []
+        unique_id = "output_name" in attrs
+        ctx.tri("4-map-key", gk, keys[0][2], unique_id, len(texts) == 1 and not unique_id and not any(a in ktxt for a in ("output_name",)),
+                "the key names the function by its output name (unique within a pipeline)",
+                f"the key identifies the function by {['.' + a for a in attrs] or 'nothing'} instead of its output name: two functions of one pipeline whose wrapped callables share that attribute (closures of one factory, lambdas) "
+                "with equal arguments share a cache entry - one returns the other's value", "function component of the key not recognised", key="key-names-function")
     for q in ("pipefunc.map._run._run_iteration", "pipefunc.map._run._execute_single"):
         f = P.func(q)
         fd_ = Defs(f)
